@@ -690,6 +690,10 @@ class Canon:
             lov = 0 if lo is None else lo.value if isinstance(lo, ast.Constant) and isinstance(lo.value, int) else None
             if lov is not None and lov >= 0:      # v[lo:hi][i] == v[lo + i] (within the slice)
                 return Canon._fold(ast.Subscript(value=new.value.value, slice=ast.Constant(value=lov + new.slice.value), ctx=ast.Load()))
+        if isinstance(new, ast.Subscript) and isinstance(new.slice, ast.Constant) and new.slice.value in (0, 1) and isinstance(new.value, ast.Call) and \
+                isinstance(new.value.func, ast.Name) and new.value.func.id == 'divmod' and len(new.value.args) == 2 and not new.value.keywords:
+            a, b = new.value.args        # divmod(a, b) == (a // b, a % b)
+            return ast.BinOp(left=a, op=ast.FloorDiv() if new.slice.value == 0 else ast.Mod(), right=b)
         if isinstance(new, ast.BinOp) and isinstance(new.op, ast.Add) and isinstance(new.left, ast.Tuple) and isinstance(new.right, ast.Tuple):
             return ast.Tuple(elts=list(new.left.elts) + list(new.right.elts), ctx=ast.Load())
         if isinstance(new, ast.BinOp) and isinstance(new.op, ast.Add) and isinstance(new.left, ast.Constant) and isinstance(new.right, ast.Constant) \
